@@ -199,6 +199,9 @@ var c02Layouts = []geom.Layout{geom.XY, geom.XYZ, geom.XYM, geom.XYZM, 5, 6, 8, 
 // ---- GeometryCollection histories: variadic Push, SetLayout, Layout, NumGeoms, Geom, Geoms ----
 
 func sxMember(g geom.T) string {
+	if _, ok := g.(*geom.GeometryCollection); ok { // a nested collection has no flat coordinates of its own
+		return fmt.Sprintf("(%d ())", int(g.Layout()))
+	}
 	return fmt.Sprintf("(%d %s)", int(g.Layout()), sxCoord(g.FlatCoords()))
 }
 
@@ -210,10 +213,20 @@ func genC02Coll(r *Rng, e *Emitter) {
 	var ops, obs []string
 	batch := make([]geom.T, 8)
 	decoy := geom.T(geom.NewPointFlat(geom.XYZM, []float64{-1, -2, -3, -4}))
+	inners := map[geom.T]*geom.GeometryCollection{}
 	member := func() geom.T {
 		l := pref
 		if r.chance(1, 5) {
 			l = layouts[r.Intn(4)]
+		}
+		if r.chance(1, 7) {
+			// a collection holding a collection: the caller keeps the inner one and pushes into it later
+			inner := geom.NewGeometryCollection()
+			inner.MustPush(geom.NewPointFlat(l, r.genCoord(l.Stride())))
+			mid := geom.NewGeometryCollection()
+			mid.MustPush(inner)
+			inners[mid] = inner
+			return mid
 		}
 		if r.chance(1, 2) {
 			return geom.NewPointFlat(l, r.genCoord(l.Stride()))
@@ -249,6 +262,23 @@ func genC02Coll(r *Rng, e *Emitter) {
 			ops = append(ops, fmt.Sprintf("(setlayout %d)", int(l)))
 			obs = append(obs, guard(func() string { return pushRes(gc.SetLayout(l)) }))
 			e.tally("op=gc-setlayout")
+		case c < 12 && len(inners) > 0 && gc.NumGeoms() > 0:
+			// the caller grows a nested member it still holds (members are shared, not copied)
+			var cand []int
+			for k := 0; k < gc.NumGeoms(); k++ {
+				if inners[gc.Geom(k)] != nil {
+					cand = append(cand, k)
+				}
+			}
+			if len(cand) == 0 {
+				continue
+			}
+			k := cand[r.Intn(len(cand))]
+			l := layouts[r.Intn(4)]
+			inners[gc.Geom(k)].MustPush(geom.NewPointFlat(l, r.genCoord(l.Stride())))
+			ops = append(ops, fmt.Sprintf("(grow %d %d)", k, int(l)))
+			obs = append(obs, "(ok u)")
+			e.tally("op=gc-grow-nested")
 		case c < 13:
 			ops = append(ops, "layout")
 			obs = append(obs, fmt.Sprint(int(gc.Layout())))
